@@ -11,7 +11,7 @@ Quantifiers.  `Reach T strict s f N` (Lemmas/FiReach.lean) ranges over EVERY his
 every purge (the code's choice, the median of a sample, is one of them).  `f x` is the true total weight of item `x`
 in that history and `N` the sum of all update weights.  `T` are the tunables read from the headers (LOAD_FACTOR,
 MAX_SAMPLE_SIZE, EPSILON_FACTOR, LG_MIN_MAP_SIZE): every theorem holds for all of them, `fi_epsilon` under a decidable
-side condition that is discharged on the generated values (`fi_epsilon_gen`).  Weights are natural numbers (the double
+side condition that is discharged on the generated values (`fi_epsilon_gen`, Props/C12Gen.lean).  Weights are natural numbers (the double
 instantiation is modelled with exact dyadic arithmetic; floating-point rounding and uint64 overflow are not modelled).
 
 `strict = true` excludes two operations that the CURRENT code gets wrong: merging an operand, or round-tripping a
@@ -20,16 +20,14 @@ is then true).  The full statements are kept as `…_full` and refuted by concre
 replayed on the real code by the check (corpus/regress/C12, open entries of known_findings.json).
 -/
 import DSProofs.Lemmas.FiEps
-import DSGen.Fi
 namespace DS.Fi
 
 variable {ι : Type} [DecidableEq ι]
 
-/-- the tunables as generated from the current headers -/
-def genTun : Tun :=
-  { lfNum := DSGen.fi_LOAD_FACTOR_num, lfDen := DSGen.fi_LOAD_FACTOR_den, maxSample := DSGen.fi_MAX_SAMPLE_SIZE,
-    epsNum := DSGen.fi_EPSILON_FACTOR_num, epsDen := DSGen.fi_EPSILON_FACTOR_den, lgMin := DSGen.fi_LG_MIN_MAP_SIZE,
-    goldNum := DSGen.fi_GOLDEN_RATIO_RECIPROCAL_num, goldDen := DSGen.fi_GOLDEN_RATIO_RECIPROCAL_den }
+/-- tunables of the non-vacuity examples and witnesses: LOAD_FACTOR 3/4, EPSILON_FACTOR 7/2, LG_MIN_MAP_SIZE 3 (fixed
+here so that a harmless retuning of the headers does not touch them; the theorems are for every `T`, and the instance
+for the constants generated from the CURRENT headers is `fi_epsilon_gen` in Props/C12Gen.lean) -/
+def exTun : Tun := {}
 
 /-- a stream of 7 items into a map of 8 slots (capacity 6): the 7th insertion purges with the median 3 -/
 def exStream : List (Ent Nat) := [(1, 5, 0), (2, 3, 0), (3, 1, 0), (4, 9, 0), (5, 2, 0), (6, 2, 0), (7, 4, 3)]
@@ -52,16 +50,16 @@ theorem fi_bracket (T : Tun) {s : St ι} {f : ι → Nat} {N : Nat} (h : Reach T
   · split <;> omega
   · intro h0; simp [h0]
 
-example : ∃ (s : St Nat) (f : Nat → Nat) (N : Nat), Reach genTun true s f N ∧ s.offset = 3 ∧ s.map.length = 3 ∧ f 3 = 1 ∧
+example : ∃ (s : St Nat) (f : Nat → Nat) (N : Nat), Reach exTun true s f N ∧ s.offset = 3 ∧ s.map.length = 3 ∧ f 3 = 1 ∧
     lowerBound s 3 = 0 ∧ upperBound s 3 = 3 :=
-  ⟨_, _, _, reach_replay genTun true exStream (Reach.new 3 3 (by decide)), by decide, by decide, by decide, by decide, by decide⟩
+  ⟨_, _, _, reach_replay exTun true exStream (Reach.new 3 3 (by decide)), by decide, by decide, by decide, by decide, by decide⟩
 
 /-- The total weight is the exact sum of all update weights (through merges and round trips). -/
 theorem fi_total_exact (T : Tun) {s : St ι} {f : ι → Nat} {N : Nat} (h : Reach T true s f N) : s.total = N :=
   (reach_inv T h).2
 
-example : ∃ (s : St Nat) (f : Nat → Nat), Reach genTun true s f 26 ∧ s.offset = 3 :=
-  ⟨_, _, reach_replay genTun true exStream (Reach.new 3 3 (by decide)), by decide⟩
+example : ∃ (s : St Nat) (f : Nat → Nat), Reach exTun true s f 26 ∧ s.offset = 3 :=
+  ⟨_, _, reach_replay exTun true exStream (Reach.new 3 3 (by decide)), by decide⟩
 
 /-- Merge: the merged sketch brackets the true weights of the concatenated streams, for every replay order of the
 operand's counters and every purge amount used during the replay – provided the operand is not fully purged. -/
@@ -75,8 +73,8 @@ theorem fi_merge_bracket (T : Tun) {s o : St ι} {f g : ι → Nat} {N M : Nat}
   exact ⟨hb.1, hb.2.1, fi_total_exact T hr⟩
 
 example : ∃ (s o : St Nat) (ents : List (Ent Nat)), (entPairs ents).Perm o.map ∧ ¬ FullyPurged o ∧
-    (merge genTun s o ents).offset = 6 ∧ (merge genTun s o ents).map.length = 3 :=
-  ⟨replay genTun (init genTun 3 3) exStream, replay genTun (init genTun 3 3) exStream,
+    (merge exTun s o ents).offset = 6 ∧ (merge exTun s o ents).map.length = 3 :=
+  ⟨replay exTun (init exTun 3 3) exStream, replay exTun (init exTun 3 3) exStream,
    [(7, 1, 0), (1, 2, 0), (4, 6, 0)], by decide, by intro h; exact absurd h.1 (by decide), by decide, by decide⟩
 
 /-- The property's statement for merge without the carve-out. -/
@@ -92,8 +90,8 @@ total weight 5 (true 12) and upper bound 0 for item 1 (true weight 1).
 Known finding `merge-ignores-fully-purged-operand`. -/
 theorem fi_merge_bracket_full_false : ¬ fi_merge_bracket_full := by
   intro h
-  have hs := reach_replay ({} : Tun) true [((100 : Nat), 5, 0)] (Reach.new 3 3 (by decide))
-  have ho := reach_replay ({} : Tun) true onesStream (Reach.new 3 3 (by decide))
+  have hs := reach_replay exTun true [((100 : Nat), 5, 0)] (Reach.new 3 3 (by decide))
+  have ho := reach_replay exTun true onesStream (Reach.new 3 3 (by decide))
   have := (h _ _ _ _ _ _ _ [] hs ho (by decide) 1).2
   revert this
   decide
@@ -108,7 +106,7 @@ theorem fi_roundtrip_bracket (T : Tun) {s : St ι} {f : ι → Nat} {N : Nat} (h
   obtain ⟨hm, ho, _⟩ := roundtrip_eq T s hnd
   exact ⟨hb.1, hb.2.1, fi_total_exact T hr, ho, by unfold lowerBound; rw [hm]⟩
 
-example : ¬ FullyPurged (replay genTun (init genTun 3 3) exStream) := by
+example : ¬ FullyPurged (replay exTun (init exTun 3 3) exStream) := by
   intro h; exact absurd h.1 (by decide)
 
 def fi_roundtrip_bracket_full : Prop :=
@@ -120,7 +118,7 @@ total weight and no offset field. Witness: the fully purged sketch above deseria
 bound 0 for item 1 (true weight 1). Known finding `roundtrip-drops-fully-purged-sketch`. -/
 theorem fi_roundtrip_bracket_full_false : ¬ fi_roundtrip_bracket_full := by
   intro h
-  have ho := reach_replay ({} : Tun) true onesStream (Reach.new 3 3 (by decide))
+  have ho := reach_replay exTun true onesStream (Reach.new 3 3 (by decide))
   have := (h _ _ _ _ ho 1).1
   revert this
   decide
@@ -142,7 +140,7 @@ theorem fi_frequent_rows (T : Tun) {s : St ι} {f : ι → Nat} {N : Nat} (h : R
   refine ⟨trivial, trivial, by rw [if_pos hpos], hpos, ?_⟩
   cases et <;> simpa [selects] using hsel
 
-example : (frequentItems (replay genTun (init genTun 3 3) exStream) .noFalseNegatives 3).map (·.item) = [4, 1, 7] := by decide
+example : (frequentItems (replay exTun (init exTun 3 3) exStream) .noFalseNegatives 3).map (·.item) = [4, 1, 7] := by decide
 
 /-- NO_FALSE_POSITIVES returns only items whose true weight exceeds the threshold – for ALL thresholds. -/
 theorem fi_no_false_pos (T : Tun) {s : St ι} {f : ι → Nat} {N : Nat} (h : Reach T true s f N)
@@ -153,7 +151,7 @@ theorem fi_no_false_pos (T : Tun) {s : St ι} {f : ι → Nat} {N : Nat} (h : Re
   rw [h1.1] at h3
   omega
 
-example : (frequentItems (replay genTun (init genTun 3 3) exStream) .noFalsePositives 1).map (·.item) = [4, 1] := by decide
+example : (frequentItems (replay exTun (init exTun 3 3) exStream) .noFalsePositives 1).map (·.item) = [4, 1] := by decide
 
 /-- NO_FALSE_NEGATIVES returns every item whose true weight exceeds the threshold, provided the threshold is at least
 the maximum error (`get_frequent_items(err_type)` uses exactly the maximum error). -/
@@ -171,8 +169,8 @@ theorem fi_no_false_neg (T : Tun) {s : St ι} {f : ι → Nat} {N : Nat} (h : Re
   simp only [selects, decide_eq_true_eq]
   omega
 
-example : ∃ (s : St Nat) (f : Nat → Nat) (N : Nat), Reach genTun true s f N ∧ s.offset ≤ 3 ∧ 3 < f 7 ∧ lowerBound s 7 = 1 :=
-  ⟨_, _, _, reach_replay genTun true exStream (Reach.new 3 3 (by decide)), by decide, by decide, by decide⟩
+example : ∃ (s : St Nat) (f : Nat → Nat) (N : Nat), Reach exTun true s f N ∧ s.offset ≤ 3 ∧ 3 < f 7 ∧ lowerBound s 7 = 1 :=
+  ⟨_, _, _, reach_replay exTun true exStream (Reach.new 3 3 (by decide)), by decide, by decide, by decide⟩
 
 /-- The property's statement: NO_FALSE_NEGATIVES for ALL thresholds. -/
 def fi_no_false_neg_full : Prop :=
@@ -186,9 +184,9 @@ Witness: seven distinct items of weight 1 into lg_max = 3; all are purged (maxim
 Known finding `nfn-threshold-below-max-error` (DESIGN.md §4 D10). -/
 theorem fi_no_false_neg_full_false : ¬ fi_no_false_neg_full := by
   intro h
-  have ho := reach_replay ({} : Tun) true onesStream (Reach.new 3 3 (by decide))
+  have ho := reach_replay exTun true onesStream (Reach.new 3 3 (by decide))
   obtain ⟨r, hr, _⟩ := h _ _ _ _ ho 0 1 (by decide)
-  have he : frequentItems (replay ({} : Tun) (init ({} : Tun) 3 3) onesStream) .noFalseNegatives 0 = [] := by decide
+  have he : frequentItems (replay exTun (init exTun 3 3) onesStream) .noFalseNegatives 0 = [] := by decide
   rw [he] at hr
   exact absurd hr (by simp)
 
@@ -197,7 +195,7 @@ theorem fi_frequent_sorted (s : St ι) (et : ErrType) (thr : Nat) :
     (frequentItems s et thr).Pairwise (fun a b => b.est ≤ a.est) :=
   sorted_sortRows _
 
-example : (frequentItems (replay genTun (init genTun 3 3) exStream) .noFalseNegatives 0).map (·.est) = [9, 5, 4] := by decide
+example : (frequentItems (replay exTun (init exTun 3 3) exStream) .noFalseNegatives 0).map (·.est) = [9, 5, 4] := by decide
 
 /-! ## epsilon -/
 
@@ -211,20 +209,15 @@ theorem fi_epsilon (T : Tun) {s : St ι} (h : ReachMed T s) (hden : 0 < T.lfDen)
     s.offset * (T.epsDen * 2 ^ s.lgMax) ≤ T.epsNum * s.total :=
   eps_bound T s (reachMed_inv T h) hden hside
 
-/-- the side conditions hold for the constants of the current headers -/
-theorem fi_epsilon_gen {s : St ι} (h : ReachMed genTun s) :
-    s.offset * (genTun.epsDen * 2 ^ s.lgMax) ≤ genTun.epsNum * s.total :=
-  fi_epsilon genTun h (by decide) (by decide)
-
 /-- the code's purge amount – the element of rank n/2 of ALL counters – and every smaller amount is acceptable -/
 theorem fi_median_ok (T : Tun) (s : St ι) (x : ι) (w a : Nat) (h : a ≤ purgeAmountAll (adjust s.map x w)) :
     AmtOK T s x w a :=
   amtOK_of_le_median T s x w a h
 
-example : ∃ s : St Nat, ReachMed genTun s ∧ s.offset = 3 ∧ s.total = 26 ∧ s.lgMax = 3 := by
-  refine ⟨updateMed genTun (replay genTun (init genTun 3 3) (exStream.take 6)) 7 4, ?_, by decide, by decide, by decide⟩
+example : ∃ s : St Nat, ReachMed exTun s ∧ s.offset = 3 ∧ s.total = 26 ∧ s.lgMax = 3 := by
+  refine ⟨updateMed exTun (replay exTun (init exTun 3 3) (exStream.take 6)) 7 4, ?_, by decide, by decide, by decide⟩
   refine ReachMed.upd 7 4 _ ?_ (fi_median_ok _ _ _ _ _ (Nat.le_refl _))
-  have hnew : ReachMed genTun (init genTun 3 3 : St Nat) := ReachMed.new 3 3 (by decide)
+  have hnew : ReachMed exTun (init exTun 3 3 : St Nat) := ReachMed.new 3 3 (by decide)
   exact ReachMed.upd 6 2 0 (ReachMed.upd 5 2 0 (ReachMed.upd 4 9 0 (ReachMed.upd 3 1 0 (ReachMed.upd 2 3 0
     (ReachMed.upd 1 5 0 hnew (by intro h; exact absurd h (by decide))) (by intro h; exact absurd h (by decide)))
     (by intro h; exact absurd h (by decide))) (by intro h; exact absurd h (by decide)))
